@@ -48,6 +48,9 @@ Definition req := list N.
 Inductive res :=
 | ROk (t : list N)
 | RErr (e : N)
+| RWire (e : N)  (* response BYTES that encode error e, with a nil Go error: what Service.Handle
+                    makes of a failure, and what travels over the wire and through the client's
+                    IO handlers until the client codec turns it into an error again *)
 | RPanic      (* a Go panic unwinding through the handlers *)
 | RStuck.     (* only in the concurrent LTS: evaluation reached a Handler() read not yet done *)
 
@@ -70,8 +73,25 @@ Definition strip_ctx (r : req) : req := match ctx_mark r with Some _ => tl r | N
 (* context.WithCancel(ctx) + cancel(): a context already done keeps its own error *)
 Definition cancel_ctx (r : req) : req := match ctx_mark r with Some _ => r | None => 9001%N :: r end.
 
+(* which published function is called: the marker right after the context marker.
+   none = echo (returns the tokens and 99), 8001 = fail (returns the error e77),
+   8002 = boom (panics with "e78").  The executor prints the same marker when the call's
+   name is fail / boom. *)
+Definition meth_mark (r : req) : option N :=
+  match strip_ctx r with
+  | m :: _ => if N.eqb m 8001 || N.eqb m 8002 then Some m else None
+  | [] => None
+  end.
+Definition payload (r : req) : req :=
+  match meth_mark r with Some _ => tl (strip_ctx r) | None => strip_ctx r end.
+Definition core_res (r : req) : res :=
+  match meth_mark r with
+  | None => ROk (payload r ++ [99%N])
+  | Some m => if N.eqb m 8001 then RErr 77 else RPanic
+  end.
+
 Definition returns (x : res) : bool :=
-  match x with ROk _ | RErr _ => true | _ => false end.
+  match x with ROk _ | RErr _ | RWire _ => true | _ => false end.
 
 Definition pre (h : handler) (r : req) : req + res :=
   match hb h with
@@ -122,15 +142,34 @@ Section Wrap.
     fold_right (wrap L) core l.
 
   (* Service.Execute + the published function: no look at the context *)
-  Definition execute : kont := fun r s => (s, [ECore r], ROk (strip_ctx r ++ [99%N])).
-  (* what lies between the built-in handler of a layer and the next layer.  Below the client
-     IO manager sits Client.Transport -> the transport, which selects on ctx.Done(): with a
-     context that is already done it returns ctx.Err() and the response of the service (which
-     still runs, detached) is dropped.  The other layers do not look at the context. *)
-  Definition below (L : layer) (k : kont) : kont :=
+  Definition execute : kont := fun r s => (s, [ECore r], core_res r).
+  (* What lies between the built-in handler of a layer and the next layer.
+     [cut]: below the client IO manager sits Client.Transport -> the transport, which selects on
+     ctx.Done(): with a context that is already done it returns ctx.Err() and the response of the
+     service (which still runs, detached) is dropped.  Nothing else looks at the context.
+     [back]: what the built-in handler makes of the inner layer's result on the way back:
+       LCI  Client.Call: Codec.Decode turns error bytes into an error;
+       LCO  ... Service.Handle: a failure (no response bytes) is encoded into error bytes,
+            returned with a nil error;
+       LSO  Service.Process: a panic of the invoke chain / the method is recovered into a
+            PanicError, and any error is RETURNED as (nil, err) up the IO chain;
+       LSI  Service.Execute: the method's own error. *)
+  Definition cut (L : layer) (r : req) : option res :=
     match L with
-    | LCO => fun r s => match ctx_mark r with Some m => (s, [], RErr m) | None => k r s end
-    | _ => k
+    | LCO => match ctx_mark r with Some m => Some (RErr m) | None => None end
+    | _ => None
+    end.
+  Definition back (L : layer) (x : res) : res :=
+    match L, x with
+    | LCI, RWire e => RErr e
+    | LCO, RErr e => RWire e
+    | LSO, RPanic => RErr 78
+    | _, _ => x
+    end.
+  Definition below (L : layer) (k : kont) : kont := fun r s =>
+    match cut L r with
+    | Some x => (s, [], x)
+    | None => let '(s', t, x) := k r s in (s', t, back L x)
     end.
   Definition stuck : kont := fun r s => (s, [], RStuck).
 End Wrap.
